@@ -15,7 +15,8 @@
    unchanged code violates it on four classes (C19_sealed_size_refuted,
    C19_p256_key_refuted, C19_builder_poisoned_refuted, C19_null_builder_refuted); it is proved
    for the repaired model.  Only statements here; proofs are in Proofs/CApiProofs.v. *)
-From Biscuit Require Import Model.CApi Proofs.RobustProofs Proofs.CApiProofs.
+From Biscuit Require Import Model.Token Model.Wire.
+From Biscuit Require Import Model.CApi Proofs.RobustProofs Proofs.CApiProofs Proofs.CApiWireProofs.
 
 (* for every codec and every token: the announced size is the number of bytes written, the
    bytes are the Rust API's, sealed or not; an already sealed token is an error; no abort *)
@@ -113,6 +114,50 @@ Theorem C19_error_index_checked : forall (A : Type) (checks : list A) (i : N),
 Proof. intros. split; [apply check_at_none_iff|apply check_at_some]. Qed.
 Print Assumptions C19_error_index_checked.
 
+(* ---- the same contract over the concrete container (Model/Token.v, Model/Wire.v) ----
+   biscuit_serialized_size / biscuit_sealed_size compute prost's `encoded_len()` of the
+   protobuf message -- arithmetic on field lengths, not the length of an encoding.  For every
+   container whose scalars fit their Rust types (wtoken_ok) and every signing primitive: that
+   number is the number of bytes of `to_vec`, serialize writes exactly those bytes, the
+   repaired sealed pair announces and writes the sealed container, a container that cannot
+   be sealed is an error with size 0. *)
+Theorem C19_wire_announced_is_written :
+  forall (sign : alg -> bytes -> bytes -> bytes) (t : token),
+  wtoken_ok (to_wire t) = true ->
+  encoded_len (to_wire t) = serialized_size token token_bytes t /\
+  copy_into (encoded_len (to_wire t)) (token_bytes t)
+    = CWritten (encoded_len (to_wire t)) (token_bytes t) /\
+  (forall s, Token.seal sign t = TOk s -> wtoken_ok (to_wire s) = true ->
+     sealed_size token token_bytes (cseal sign) Repaired t = encoded_len (to_wire s) /\
+     serialize_sealed token token_bytes (cseal sign) Repaired t
+       = CWritten (encoded_len (to_wire s)) (token_bytes s)) /\
+  (forall e, Token.seal sign t = TErr e ->
+     serialize_sealed token token_bytes (cseal sign) Repaired t = CError /\
+     sealed_size token token_bytes (cseal sign) Repaired t = 0%N).
+Proof.
+  intros sign t H. split; [apply (wire_size t H)|]. split; [apply (wire_serialize t H)|].
+  split; [intros s Hs Hw; apply (wire_sealed sign t s Hs Hw)|intros e He; apply (wire_sealed_error sign t e He)].
+Qed.
+Print Assumptions C19_wire_announced_is_written.
+
+(* ... and the unchanged pair on that container: sealing a container whose proof is a 32-byte
+   next secret with a 64-byte signature (every ed25519 token) makes it exactly 32 bytes
+   longer; biscuit_sealed_size is 32 bytes short and biscuit_serialize_sealed aborts *)
+Theorem C19_wire_sealed_size_refuted :
+  forall (sign : alg -> bytes -> bytes -> bytes) (t s : token) (sk sg : bytes),
+  Token.seal sign t = TOk s -> t_proof t = Secret sk -> t_proof s = Seal sg ->
+  nlen sk = 32%N -> nlen sg = 64%N ->
+  wtoken_ok (to_wire t) = true -> wtoken_ok (to_wire s) = true ->
+  encoded_len (to_wire s) = (encoded_len (to_wire t) + 32)%N /\
+  (sealed_size token token_bytes (cseal sign) Faithful t + 32 = blen (token_bytes s))%N /\
+  serialize_sealed token token_bytes (cseal sign) Faithful t = CAbort.
+Proof.
+  intros sign t s sk sg Hs Hp Hq Lk Lg Wt Ws.
+  split; [apply (wire_seal_grows sign t s sk sg Hs Hp Hq Lk Lg)|].
+  apply (wire_faithful_aborts sign t s sk sg Hs Hp Hq Lk Lg Wt Ws).
+Qed.
+Print Assumptions C19_wire_sealed_size_refuted.
+
 (* ---- non-vacuity ---- *)
 
 (* an ed25519-shaped container: 32-byte secret, 64-byte signature *)
@@ -138,3 +183,25 @@ Example C19_ex_keys_builders :
   check_at [5%N; 6%N] 1 = Some 6%N /\ check_at [5%N; 6%N] 2 = None /\
   check_at [5%N; 6%N] 18446744073709551615 = None.
 Proof. repeat split. Qed.
+
+(* a two-block container with a 32-byte next secret, sealed by a toy primitive whose
+   signatures have 64 bytes: it meets every hypothesis of the two wire theorems *)
+Definition c19_pub (a : alg) (sk : bytes) : option pubkey := Some (mkpub a sk).
+Definition c19_sign (a : alg) (sk m : bytes) : bytes := firstn 64 (sk ++ sk ++ m).
+Definition c19_tok : token :=
+  match Token.new_token c19_pub c19_sign (Some 3%N) (mkkp Ed25519 (repeat 1%N 32)) (mkkp Ed25519 (repeat 2%N 32)) [5%N; 5%N] 3 with
+  | TOk t => match Token.append c19_pub c19_sign t (mkkp Ed25519 (repeat 4%N 32)) [6%N] 3 with TOk t' => t' | TErr _ => t end
+  | TErr _ => mktoken None (mkblock [] (mkpub Ed25519 []) [] None 0) [] (Seal [])
+  end.
+Example C19_ex_wire :
+  exists s sk sg, Token.seal c19_sign c19_tok = TOk s /\ t_proof c19_tok = Secret sk /\
+    t_proof s = Seal sg /\ nlen sk = 32%N /\ nlen sg = 64%N /\
+    wtoken_ok (to_wire c19_tok) = true /\ wtoken_ok (to_wire s) = true /\
+    length (t_blocks c19_tok) = 1%nat /\
+    encoded_len (to_wire c19_tok) = blen (token_bytes c19_tok) /\
+    encoded_len (to_wire s) = (blen (token_bytes c19_tok) + 32)%N.
+Proof.
+  destruct (Token.seal c19_sign c19_tok) as [s|e] eqn:E; [|vm_compute in E; discriminate].
+  exists s. vm_compute in E. inversion E; subst.
+  eexists; eexists. vm_compute. repeat split.
+Qed.
